@@ -189,7 +189,18 @@ class SimTTY(ByteQueue):
 
 
 def _copy_attrs(a: list) -> list:
-    return [*a[:6], list(a[6])]
+    """Copy of an attribute list; like the real termios module, cc[VMIN] and cc[VTIME] are reported as
+    integers in non-canonical mode and as bytes in canonical mode."""
+    cc = list(a[6])
+    t = _real_termios
+    canon = bool(a[3] & t.ICANON)
+    for i in (t.VMIN, t.VTIME):
+        v = cc[i]
+        if canon and isinstance(v, int):
+            cc[i] = bytes([v])
+        elif not canon and isinstance(v, bytes):
+            cc[i] = v[0] if v else 0
+    return [*a[:6], cc]
 
 
 class SimTTYOut:
